@@ -6,12 +6,12 @@ V = os.path.dirname(os.path.dirname(os.path.abspath(__file__)))
 TECH = "deterministic simulation with fault injection: "
 CHECKS = {
  "C01": dict(level="exploration", design="§4 C01",
-   technique=TECH + "seeded op-history simulation of Window<T> (pushes, observers, iterator splits, restart/rebuild through every export path, storage-fault injection on the serialized form) against a VecDeque reference model, op by op",
+   technique=TECH + "seeded op-history simulation of Window<T> (pushes, observers, iterator splits incl. fold/for_each/nth/skip/step_by/reduce on partially consumed iterators, restart/rebuild through every export path incl. clone and clone_from into a used window, storage-fault injection on the serialized form) against a VecDeque reference model, op by op",
    text="Seeded search over operation histories on the real Window<T>; every observer is compared with a VecDeque model after every op; thorough stratifies the capacity over every value 0..=254 (0..=4094 would need the u16 build, see C20) so the capacity dimension is complete while phases/observer choices are sampled. A clean batch is evidence, not proof.",
    note="Trusted: the VecDeque model, the simfmt serializer/deserializer written for this task, catch_unwind classification of documented panics. Labels stand for all element values (parametricity)."),
  "C02": dict(level="exploration", design="§4 C02, §3.2",
    technique=TECH + "seeded fault-feed streams (stuck feed, ties, spikes, scale jumps, gaps, signed zeros) through the real finite-window methods; per-step refinement against from-scratch reference models with a tracked rounding allowance (reduced fit: no schedule exists in this property)",
-   text="Per-step refinement of every finite-window method against its documented formula on the last `length` inputs, two-sided, within the frozen allowance D(t)=c_m*u*(n+t)*S; a second replica is built from element 0 and fed from element 1 on (the construction value is the prehistory whether or not it is delivered again). Feeds include a dyadic tick grid (exact sums, exact ties), levels of 1e+-20..1e+-60 and zero-volume pairs for VWMA. Thorough stratifies half of the runs over every length; streams up to 10^4 ticks. Samples the stream space; a clean batch is evidence, not proof.",
+   text="Per-step refinement of every finite-window method against its documented formula on the last `length` inputs, two-sided, within the frozen allowance D(t)=c_m*u*(n+t)*S; a second replica is built from element 0 and fed from element 1 on (the construction value is the prehistory whether or not it is delivered again). Feeds include a dyadic tick grid (exact sums, exact ties), levels of 1e+-20..1e+-60 and zero-volume pairs for VWMA. Thorough stratifies half of the runs over every length; streams up to 10^4 ticks (quick: one run in eight is 1100..2600 values long). Samples the stream space; a clean batch is evidence, not proof.",
    note="Trusted: reference models written from the doc comments (DESIGN.md App. A), Neumaier-compensated f64 sums, drift constants frozen after calibration (10x worst observed, power of two)."),
  "C03": dict(level="exploration", design="§4 C03, §3.3",
    technique=TECH + "same engine as C02; oracle = free-running documented recurrence as tracked numbers (contraction of the error for exponential kinds, interval rule where Vidya's Chande factor is 0/0 or residue/residue)",
@@ -26,7 +26,7 @@ CHECKS = {
    text="Exact comparison of Cross/CrossAbove/CrossUnder and Upper/Lower/ReversalSignal with their definitional detectors at every step, including positions beyond PeriodType::MAX; the crossing detectors additionally as a replica built from pair 0 and fed from pair 1 on (the state set by new() is then observable).",
    note="Trusted: the reference detectors (newest-wins tie rule as documented in DESIGN.md App. A)."),
  "C09": dict(level="exploration", design="§4 C09, §2.5",
-   technique=TECH + "two-run discipline: run A = new+next per element; run B = seeded schedule of delivery events (chunk boundaries incl. empty chunks, batch API per chunk: over/call/apply/into_fn/new_over/new_apply/IndicatorConfig::over/init_fn/dyn over), peeks, forks with interleaved different continuations; bitwise comparison per tick per replica",
+   technique=TECH + "two-run discipline: run A = new+next per element; run B = seeded schedule of delivery events (chunk boundaries incl. empty chunks, batch API per chunk: over/call/apply/into_fn/new_over/new_apply/IndicatorConfig::over/init_fn/dyn over), peeks, forks (by clone and by clone_from into a used instance built from other parameters) with interleaved different continuations; bitwise comparison per tick per replica",
    text="Seeded search over delivery schedules and clone points for every method, wrapper, MA-dispatched instance and indicator; any schedule-dependent difference is a bit-level mismatch. Samples schedules; not exhaustive.",
    note="Trusted: run A as the reference behaviour (its own correctness is C02-C06); the scheduler; catch_unwind."),
  "C13": dict(level="fault_enumeration", design="§4 C13, §2.4",
@@ -39,7 +39,7 @@ CHECKS = {
    note="Strict build profile (debug assertions + overflow checks, as in the dev profile of the baseline). Documented minima from the doc comments. Known findings: the PeriodType::MAX family and NaN into SMM (known_findings.json)."),
  "C11": dict(level="exploration", design="§4 C11",
    technique=TECH + "shape monitor on every step of seeded runs; static replica vs three dyn replicas (tick-wise, config over, chunked instance over) compared bitwise; set() through static and dyn interface compared against the expected configuration tree read through the serde seam (partial fit: set() is a stateless clause, decided by seeded sampling)",
-   text="Every indicator, default and mutated valid configurations, every public parameter name (enumerated from the serialized configuration) with parsable and unparsable texts, unknown and near-miss names; shape/name/dyn equivalence at every step of fault-feed candle streams; config-level over() of the dyn and the static interface on batches of 0..3 candles (valid and invalid configurations); the accessors value(i)/signal(i)/values()/signals()/lengths/size() of every result against each other incl. the documented panic beyond the length.",
+   text="Every indicator, default and mutated valid configurations, every public parameter name (enumerated from the serialized configuration) with parsable and unparsable texts, unknown and near-miss names; shape/name/dyn equivalence at every step of fault-feed candle streams; config-level over() of the dyn and the static interface on batches of 0..3 candles (valid and invalid configurations); the accessors value(i)/signal(i)/values()/signals()/lengths/size() of every result against each other incl. the documented panic beyond the length; first candles that fail OHLCV::validate() through the static and the dyn init (same Ok/Err).",
    note="Public parameter names = pub fields of the configuration struct = fields of its serialized form (Example: `price`). Expected parse results are produced by the harness (decimal numbers, source names, 'kind-len')."),
  "C08": dict(level="exploration", design="§4 C08",
    technique=TECH + "duplicate-delivery fault on the first tick: replicas R_k receive k extra leading copies of the first element (k in {1,2,n-1,n,n+1,3n,1000}, thorough up to 10^6); constancy during the duplicated prefix (exact for selections/signals, drift-free allowance for arithmetic) and replica agreement with R_0 afterwards; ill-conditioned steps identified by three few-ulp input perturbation replicas (a quarter of the allowance counts)",
@@ -50,7 +50,7 @@ CHECKS = {
    text="Seeded search over candle streams, periods 1..40 (one collapse run in eight: 255..2140, beyond 8 bits' worth of inputs), brick sizes in [eps,1) and all price sources; per-step oracles: no panic, emission iff boundary reached, contiguity, equal relative size, one direction, volume conservation, iterator consistency; collapse aggregation and batch/streaming equality.",
    note="Boundaries are read from Renko's serialized state through the serde seam (no hook). The aggregated OHLCV view of RenkoOutput is outside the property's statement and only counted as an observation (its close() is base + size*len although bricks are relative)."),
  "C12": dict(level="exploration", design="§4 C12",
-   technique=TECH + "invariant monitors evaluated at every step of seeded indicator/method runs while the feed injects the regimes the property names: volatile -> exactly flat (stuck feed longer than every window, degenerate bars) -> volatile, zero-volume bars, spikes and scale jumps (reduced fit: monitoring of state machines under feed faults, no schedule)",
+   technique=TECH + "invariant monitors evaluated at every step of seeded indicator/method runs while the feed injects the regimes the property names: volatile -> exactly flat (stuck feed longer than every window, degenerate bars) -> volatile, zero-volume bars, spikes and scale jumps, exactly flat tails of 700..1600 values with short smoothing periods (reduced fit: monitoring of state machines under feed faults, no schedule)",
    text="Interval / ordering / containment / sign / finiteness predicates for the 14 range-documented indicators, 6 methods, clv and tr on every step; finiteness for all 36 indicators. Allowances: 64*u*(n+t) for unit-interval ratios (scaled by M_history/denominator for ratios of running sums, NOT relaxed on exactly flat windows), times price scale for orderings.",
    note="Value-slot meanings from DESIGN.md App. B. RSI/Stochastic/SMI/Envelopes range monitors only for MA kinds that cannot overshoot; volume-based sources exempt; finiteness exempt where the formula is undefined (zero window volume, correlation of a constant window)."),
  "C19": dict(level="exploration", design="§4 C19, §2.7",
